@@ -186,6 +186,7 @@ class Verdict:
         self.body = None  # 2-D float64 array of the body as written (None if not modelled)
         self.fuzzy = None  # boolean mask of cells whose blank status is not modelled
         self.header_ok = False
+        self.wrapped = False
 
     def __repr__(self):
         return f"<{self.kind}: {self.why}>"
@@ -210,8 +211,6 @@ def classify(text, dtype):
     rect = len({len(r) for r in body_tok}) == 1 if body_tok else False
     v = Verdict("either", "")
     v.gid = lines[0].strip()
-    if body_strict and rect:
-        v.body = np.array([[float(t) for t in r] for r in body_tok], dtype=float)
     header_ok = (
         len(hdr[0]) == 2
         and all(STRICT_INT.match(t) for t in hdr[0])
@@ -230,19 +229,18 @@ def classify(text, dtype):
     if not body_strict:
         v.why = "body token outside the strict decimal grammar: no claim"
         return v
-    if not body_tok:
-        v.kind, v.why = "refuse", "no body rows delivered"
+    flat = [float(t) for r in body_tok for t in r]
+    if shape[0] < 1 or shape[1] < 1 or len(flat) != shape[0] * shape[1]:
+        v.kind, v.why = "refuse", f"body has {len(flat)} values in {len(body_tok)} rows, header announces {shape}"
         return v
-    if not rect:
-        v.kind, v.why = "refuse", "ragged body rows can never form the announced grid"
-        return v
-    got_shape = v.body.shape
-    if got_shape != shape:
-        v.kind, v.why = "refuse", f"body is {got_shape}, header announces {shape}"
-        return v
+    wrapped = not (rect and (len(body_tok), len(body_tok[0])) == shape)
+    # one grid row per line is the well-formed layout; any other line structure with the right number of
+    # values is a wrapped-row layout, which "must load correctly or be refused": if it loads, it is the
+    # header's grid filled in file order
     if shape[0] < 2 or shape[1] < 2:
         v.why = "fewer than two rows or columns: outside the quantifier"
         return v
+    v.body = np.array(flat, dtype=float).reshape(shape)
     if not all(np.isfinite([south, north, west, east, zlo, zhi])):
         v.why = "header number overflows to inf: no claim"
         return v
@@ -271,6 +269,10 @@ def classify(text, dtype):
         return v
     if not (same(lo, zlo) and same(hi, zhi)):
         v.why = "range differs inside the grey band: no claim"
+        return v
+    if wrapped:
+        v.why = "wrapped-row layout: must load as the header's grid in file order, or be refused"
+        v.wrapped = True
         return v
     v.kind, v.why = "load", "well-formed"
     return v
@@ -399,7 +401,14 @@ class Loader:
         if fired is not None and fired[0] in ("eio", "interrupt", "open_error", "call_interrupt"):
             v = Verdict("refuse", f"{fired[0]} fired")
             if outcome == "returned":
-                raise Violation("returned-after-io-error", f"{label}: returned data although the read failed ({fired[0]} at {fired[1]})")
+                # Swallowing the error is only tolerable if everything needed had already been delivered
+                # (the failing call was the EOF probe after the last row) and the grid is the file's grid.
+                got_all = classify("".join(stream.delivered[d0:]), dtype) if (stream is not None and fired[0] in ("eio", "interrupt")) else None
+                if got_all is not None and got_all.kind == "load":
+                    check_loaded(res, got_all, dtype, got_all.gid, path if kind == "path" else None, label)
+                    st["probes"]["returned_complete_grid_after_late_fault"] = st["probes"].get("returned_complete_grid_after_late_fault", 0) + 1
+                    return outcome, res, handle, got_all
+                raise Violation("returned-after-io-error", f"{label}: returned data although the read failed ({fired[0]} at {fired[1]}) before a complete well-formed grid had been delivered")
             st["extra"]["refused_fault"] = st["extra"].get("refused_fault", 0) + 1
             return outcome, res, handle, v
         v = classify(delivered, dtype)
